@@ -43,7 +43,16 @@ func init() {
 	register(&Rule{
 		Name:  "CLONE-DEPTH",
 		IR:    "ast",
-		Props: []string{"C38"},
+		Props: []string{"C38", "C39"},
+		// the tag list's own Clone/MergeFrom also carry C39 ("merging replaces the list with the other's": a merged
+		// list that shares the other's backing array is changed by later edits of the other)
+		Narrow: func(o *Obligation) {
+			if strings.Contains(o.Key, "/b6.(*Tags).") || strings.Contains(o.Key, "/b6.(Tags).") {
+				o.Props = []string{"C38", "C39"}
+			} else {
+				o.Props = []string{"C38"}
+			}
+		},
 		// ingest: GenericFeature{Clone,MergeFrom}, AreaMembers{Clone,MergeFrom},
 		// AreaFeature{Clone,CloneAreaFeature,MergeFrom,MergeFromAreaFeature},
 		// RelationFeature{Clone,CloneRelationFeature,MergeFrom,MergeFromRelationFeature},
